@@ -39,8 +39,10 @@ def r1(ctx):
         results = {}
         unknown = []
         for nomoves in (True, False):
-            for incheck in (True, False):
-                def decide(c, vals):
+            for nck in (0, 1, 2):
+                incheck = nck > 0
+
+                def decide(c, vals, nck=nck, incheck=incheck):
                     for cp in counts:
                         if match(cp, c) is not None:
                             seen.add('n')
@@ -59,21 +61,30 @@ def r1(ctx):
                     if c[0] in ('bbeq', 'bbne') and set(c[1:]) == {('bb0',), ('field', SELF, 'checkers')}:
                         seen.add('c')
                         return as_bool((not incheck) if c[0] == 'bbeq' else incheck, vals)
+                    # the same test through the number of checkers: `match checkers.popcnt() {0 => .., 1 => .., _ => ..}`
+                    PC = ('popcnt', ('field', SELF, 'checkers'))
+                    if c == PC or (c[0] == 'cast' and c[1] == PC):
+                        seen.add('c')
+                        return nck if nck in vals else 'otherwise'
+                    if c[0] == 'bin' and c[1] in ('Eq', 'Ne', 'Lt', 'Le', 'Gt', 'Ge') and c[2] == PC and c[3][0] == 'int':
+                        seen.add('c')
+                        k_ = c[3][1]
+                        return as_bool({'Eq': nck == k_, 'Ne': nck != k_, 'Lt': nck < k_, 'Le': nck <= k_, 'Gt': nck > k_, 'Ge': nck >= k_}[c[1]], vals)
                     k = sh(c, 200)
                     if k in foreign and set(vals) <= {0, 1, 'otherwise'}:
                         return as_bool(foreign[k], vals)
                     unknown.append(c)
                     return None
-                results[(nomoves, incheck)] = eval_tree(r, decide)
+                results[(nomoves, nck)] = eval_tree(r, decide)
         return results, unknown
-    want = {(True, True): 'Checkmate', (True, False): 'Stalemate', (False, True): 'Ongoing', (False, False): 'Ongoing'}
+    want = {(True, 1): 'Checkmate', (True, 2): 'Checkmate', (True, 0): 'Stalemate', (False, 0): 'Ongoing', (False, 1): 'Ongoing', (False, 2): 'Ongoing'}
 
     def wrong(results):
         bad = []
         for k, v in want.items():
             got = results[k]
             if got != [('enum', ST, v)]:
-                bad.append('(no legal move=%s, in check=%s) -> %s, expected %s' % (k[0], k[1], [sh(g, 40) for g in got], v))
+                bad.append('(no legal move=%s, checkers=%s) -> %s, expected %s' % (k[0], k[1], [sh(g, 40) for g in got], v))
         return bad
     results, unknown = table({})
     if unknown:
